@@ -293,12 +293,24 @@ impl<SP: StorageProvider, PS: PolicyStore> Transaction<SP, PS> {
         // Try to run command, or revert if failed.
         sink.begin();
         let checkpoint = perspective.checkpoint();
-        if let Err(e) = policy.call_rule(
-            command,
-            perspective,
-            sink,
-            CommandPlacement::OnGraphAtOrigin,
-        ) {
+        // The command is refused if the policy rejects it, or if it cannot be
+        // appended to the perspective (e.g. its parent address does not match
+        // the perspective head). Either way it must leave no trace.
+        let result = policy
+            .call_rule(
+                command,
+                perspective,
+                sink,
+                CommandPlacement::OnGraphAtOrigin,
+            )
+            .map_err(ClientError::from)
+            .and_then(|()| {
+                perspective
+                    .add_command(command)
+                    .map(|_| ())
+                    .map_err(ClientError::from)
+            });
+        if let Err(e) = result {
             perspective.revert(checkpoint)?;
             sink.rollback();
             if fresh {
@@ -310,9 +322,8 @@ impl<SP: StorageProvider, PS: PolicyStore> Transaction<SP, PS> {
                     self.heads.insert(parent.id, loc);
                 }
             }
-            return Err(e.into());
+            return Err(e);
         }
-        perspective.add_command(command)?;
         sink.commit();
 
         self.phead = Some(command.id());
